@@ -68,10 +68,18 @@ def snapshot(x):
         try:
             sh, els = core.canon_elements(x)
             els = [tuple(e) for e in els]
-        except ValueError:        # non-integral coefficients: compare by values at the float level
-            sh = list(x.shape)
-            els = [tuple(sorted((tuple(int(v) for v in e), tuple(numpy.asarray(c).ravel().tolist()))
-                                for e, c in zip(x.exponents.tolist(), x.coefficients) if numpy.any(c)))]
+        except ValueError:        # non-integral coefficients: the same canonical form (monomials by indeterminate
+            sh = list(x.shape)    # index, unused names and zero terms dropped) with the values as they are
+            idx = [core.name_index(nm) for nm in x.names]
+            els = []
+            for i in range(x.size):
+                d = {}
+                for e, c in zip(x.exponents.tolist(), x.coefficients):
+                    v = numpy.asarray(c).ravel()[i].item()
+                    if v:
+                        m = tuple(sorted((n_, int(k)) for n_, k in zip(idx, e) if k))
+                        d[m] = d.get(m, 0) + v
+                els.append(tuple(sorted(d.items(), key=lambda t: t[0])))
         return ("poly", tuple(sh), str(x.dtype), tuple(els))
     if isinstance(x, (tuple, list)):
         return ("seq", tuple(snapshot(y) for y in x))
@@ -119,13 +127,15 @@ def run(report, tier, seed):
     dist = {}
 
     def mk(shape, const=False, nonzero=False):
+        # a quarter of the operands have a coefficient dtype beside the compiled kernels' (small values: nothing wraps)
+        d = numpy.int64 if rng.random() < 0.75 else rng.choice([numpy.int32, numpy.float32, numpy.int16, numpy.complex64])
         return gen.rand_poly(rng, tuple(shape), rng.choice([(0,), (0, 1), (1, 2), (2, 10)]), nterms=rng.choice([1, 2, 3]),
-                             maxexp=2, dtype=numpy.int64, raw=rng.random() < 0.3)
+                             maxexp=2, dtype=d, raw=rng.random() < 0.3)
 
     def make_case():
         """returns (label, thunk, varies) — varies: the option keys the case may legitimately depend on"""
         kind = rng.choice(["construct", "construct_mixed", "division", "division", "binary", "binary", "power", "derivative", "derivative", "gradient", "hessian", "call", "call_partial",
-                           "compute_call",
+                           "compute_call", "narrow_product", "narrow_product",
                            "index", "align", "pickle", "catalogue", "catalogue", "order", "text", "todict", "set_dimensions"])
         if kind == "construct":
             D = rng.randint(1, 3)
@@ -155,6 +165,25 @@ def run(report, tier, seed):
                 q, r, _ = c05.guarded_divmod(f, g)
                 return float_snapshot(q), float_snapshot(r)
             return kind, div, {"retain_names", "retain_coefficients"}, None
+        if kind == "narrow_product":
+            # products / powers / prod of operands whose result dtype is beside the compiled kernels', over different
+            # indeterminates of one variable array (each operand leaves some names unused)
+            d = rng.choice(["int32", "float32", "int16", "complex64"])
+            i, j, k = rng.sample(range(3), 3)
+            form = rng.randrange(5)
+
+            def thunk(d=d, i=i, j=j, k=k, form=form):
+                q = numpoly.variable(3, dtype=d)
+                if form == 0:
+                    return q[i] * q[k]
+                if form == 1:
+                    return numpy.multiply(q[j], 3 * q[k] + 1)
+                if form == 2:
+                    return numpy.dtype(d).type(3) * q[j]
+                if form == 3:
+                    return (q[j] * q[k]) ** 2
+                return numpoly.prod(numpoly.polynomial([[q[i], q[j] + 1], [q[k], 2 * q[i]]]).T, axis=0)
+            return kind, thunk, set(), None
         if kind in ("binary", "power"):
             a, b = gen.rand_operand_pair(rng)
             if kind == "power":
